@@ -36,14 +36,19 @@ Drift(what) == IF what = "" THEN TRUE ELSE TLCSet(2, TLCGet(2) + 1) /\ TLCSet(4,
 \* the canonical index proper (height -> hash -> header, body) without the certificate column
 Idx(canon) == [i \in 1..Len(canon) |-> [h |-> canon[i].h, hash |-> canon[i].hash, header |-> canon[i].header, body |-> canon[i].body]]
 \* first group of a store summary in which two observations differ
-DiffGroup(a, b) ==
+\* blocks that the abandoned branch and the fork have in common (two empty blocks on the same parent are the SAME block):
+\* the real common ancestor is the last of them, and the adopter legitimately keeps the certificate it already held for it
+SharedHashes == {own[i].hash : i \in 1..Len(own)} \cap {fork[i].hash : i \in 1..Len(fork)}
+Certs(canon, sh) == [i \in 1..Len(canon) |-> IF canon[i].hash \in sh THEN 0 ELSE canon[i].cert]
+DiffGroupSh(a, b, sh) ==
     IF a.head # b.head THEN "head"
     ELSE IF <<a.state.liveroot, a.state.idlive>> # <<b.state.liveroot, b.state.idlive>> THEN "state"
     ELSE IF a.vals.live # b.vals.live THEN "validators"
     ELSE IF Idx(a.canon) # Idx(b.canon) THEN "canonical-index"
-    ELSE IF a.canon # b.canon THEN "certificates"
+    ELSE IF Certs(a.canon, sh) # Certs(b.canon, sh) THEN "certificates"
     ELSE IF a.state # b.state \/ a.vals.load # b.vals.load THEN "readonly-view"
     ELSE ""
+DiffGroup(a, b) == DiffGroupSh(a, b, {})
 
 \* the canonical index of an observed summary against the model's store (heights relative to the ancestor;
 \* the summary probes heights ancestor .. top, entry 1 is the ancestor itself)
@@ -124,16 +129,16 @@ TSync ==
        IF pc = "crashed" THEN UNCHANGED <<vars, bad, obs>>
        ELSE /\ pc' = "done" /\ R' = Followed(fork)
             /\ Note({IF e.err # "" THEN "AdoptionEqualsSync:reference-rejects-fork"
-                     ELSE IF DiffGroup(obs.post, e.st) = "" THEN ""
-                     ELSE "AdoptionEqualsSync:" \o DiffGroup(obs.post, e.st) \o (IF OneOne THEN ":1v1" ELSE "")})
+                     ELSE IF DiffGroupSh(obs.post, e.st, SharedHashes) = "" THEN ""
+                     ELSE "AdoptionEqualsSync:" \o DiffGroupSh(obs.post, e.st, SharedHashes) \o (IF OneOne THEN ":1v1" ELSE "")})
             /\ UNCHANGED <<own, fork, seed, vi, ai, sub, A, pre, reverted, why, obs>>
 
 TExtend ==
     /\ Ev("Extend") /\ pc = "done"
     /\ LET e == Trace[l] IN
-       Note({IF e.aerr = "" /\ e.rerr = "" /\ DiffGroup(e.a, e.r) = "" THEN ""
+       Note({IF e.aerr = "" /\ e.rerr = "" /\ DiffGroupSh(e.a, e.r, SharedHashes) = "" THEN ""
              ELSE IF e.aerr # e.rerr THEN "AdoptionEqualsSync:next-block-verdict"
-             ELSE "AdoptionEqualsSync:next-block-" \o DiffGroup(e.a, e.r)})
+             ELSE "AdoptionEqualsSync:next-block-" \o DiffGroupSh(e.a, e.r, SharedHashes)})
     /\ UNCHANGED <<vars, obs>>
 
 TraceNext == TOffer \/ TCheckSize \/ TProcess \/ TApply \/ TSync \/ TExtend
